@@ -1192,6 +1192,101 @@ Proof.
 Qed.
 
 (* ------------------------------------------------------------------ *)
+(** * Inhabitation: every well-formed function has an execution *)
+
+Section Inhabited.
+  Variable tbl : fn_table.
+  Variable gl : string -> region.
+
+  (* the canonical execution of a body: may-instructions are skipped,
+     must-reads read no cell, must-writes write no cell, calls run the
+     canonical execution of the callee *)
+  Lemma body_inhabited : forall m,
+      (forall g, ok tbl m g = true ->
+         forall ps h nx, exists body s' tr ret,
+           lookup tbl g = Some body /\ exec tbl gl m ps (mkst h nx lempty) body s' tr ret) ->
+      forall body,
+        (forall i, In i body ->
+           match snd i with ICall g _ _ _ => ok tbl m g = true | _ => True end) ->
+        forall ps s, exists s' tr ret, exec tbl gl (S m) ps s body s' tr ret.
+  Proof.
+    intros m IHm. induction body as [|[b o] rest IH]; intros Hcalls ps s.
+    - exists s, [], None. constructor.
+    - assert (Hrest : forall i, In i rest ->
+                match snd i with ICall g _ _ _ => ok tbl m g = true | _ => True end).
+      { intros i Hi. apply Hcalls. right; exact Hi. }
+      destruct b.
+      + (* must-instruction *)
+        destruct o as [k|rs|rs fld|g args k hint|d rr].
+        * destruct (IH Hrest ps (mkst (upd (sh s) (sn s) 0%Z) (S (sn s))
+                                      (bind (sl s) k (fun c => c = sn s))))
+            as (s' & tr & ret & H).
+          eexists; eexists; eexists. eapply ex_alloc. exact H.
+        * destruct (IH Hrest ps s) as (s' & tr & ret & H).
+          eexists; eexists; eexists. eapply ex_read with (cs := []); [constructor|exact H].
+        * destruct (IH Hrest ps (mkst (wr_all (sh s) []) (sn s) (sl s))) as (s' & tr & ret & H).
+          eexists; eexists; eexists.
+          eapply (ex_write tbl gl (S m) ps s true rs fld []); [constructor|exact H].
+        * pose proof (Hcalls _ (or_introl eq_refl)) as Hg. simpl in Hg.
+          destruct (IHm g Hg (map (fun a => dens gl ps (sl s) a) args) (sh s) (sn s))
+            as (bodyg & s1 & tr1 & r1 & Hl & Hex1).
+          destruct (IH Hrest ps
+                      (mkst (sh s1) (sn s1)
+                            (bind (sl s) k (match r1 with Some (_, R) => R | None => rempty end))))
+            as (s' & tr2 & ret & H2).
+          eexists; eexists; eexists. eapply ex_call; eassumption.
+        * eexists; eexists; eexists. apply ex_return.
+      + (* may-instruction: skip it *)
+        destruct (IH Hrest ps s) as (s' & tr & ret & H).
+        eexists; eexists; eexists. apply ex_skip. exact H.
+  Qed.
+
+  Theorem ok_inhabited : forall m f, ok tbl m f = true ->
+      forall ps h nx, exists body s' tr ret,
+        lookup tbl f = Some body /\ exec tbl gl m ps (mkst h nx lempty) body s' tr ret.
+  Proof.
+    induction m as [|m IHm]; intros f Hok ps h nx; [discriminate|].
+    destruct (ok_S _ _ _ Hok) as [body [Hl Hwf]].
+    destruct (body_inhabited m IHm body) with (ps := ps) (s := mkst h nx lempty)
+      as (s' & tr & ret & H).
+    - intros i Hi. destruct (Hwf i Hi) as [_ Hc]. exact Hc.
+    - exists body, s', tr, ret. split; assumption.
+  Qed.
+
+  (* every function accepted by [ok] - in particular every pure function -
+     can be run from every heap on every arguments *)
+  Corollary ok_run_inhabited : forall m f, ok tbl m f = true ->
+      forall ps h nx, exists h' nx' tr ret, run tbl gl m f ps h nx h' nx' tr ret.
+  Proof.
+    intros m f Hok ps h nx.
+    destruct (ok_inhabited m f Hok ps h nx) as (body & [h' nx' le'] & tr & ret & Hl & Hex).
+    exists h', nx', tr, ret. exists body, le'. split; assumption.
+  Qed.
+
+  Corollary pure_run_inhabited : forall d f, pure_fn tbl d f = true ->
+      forall ps h nx, exists n h' nx' tr ret, run tbl gl n f ps h nx h' nx' tr ret.
+  Proof.
+    intros d f Hp ps h nx. unfold pure_fn in Hp. apply andb_true_iff in Hp.
+    destruct Hp as [Hok _]. exists fuel. apply ok_run_inhabited. exact Hok.
+  Qed.
+End Inhabited.
+
+(* elimination of the table-wide verdict, generic in the table *)
+Lemma no_global_state_elim : forall tbl names inits f,
+    no_global_state tbl names inits = true -> In f names -> ~ In f inits ->
+    no_global_write tbl f = true.
+Proof.
+  intros tbl names inits f H Hf Hni. unfold no_global_state in H.
+  rewrite forallb_forall in H. specialize (H f Hf).
+  apply orb_true_iff in H. destruct H as [H|H]; [|exact H].
+  exfalso. apply Hni. apply existsb_exists in H. destruct H as [x [Hx He]].
+  apply String.eqb_eq in He. subst x. exact Hx.
+Qed.
+
+Print Assumptions ok_inhabited.
+Print Assumptions pure_run_inhabited.
+
+(* ------------------------------------------------------------------ *)
 Print Assumptions call_sound.
 Print Assumptions pure_fn_sound.
 Print Assumptions no_global_write_sound.
